@@ -560,6 +560,10 @@ func (st *wstate) checkDisk(i int, l *scen.Lifetime, lf *model.Life, after world
 	}
 	sort.Strings(extra)
 	for _, path := range extra {
+		if st.faultPaths[path] {
+			d.Multi[path] = &model.MFile{Dirty: true} // left behind by an injected fault: not predicted from here on
+			continue
+		}
 		props := callProps("C03")
 		if strings.Contains(filepath.Base(path), "_") && !strings.HasPrefix(filepath.Base(path), "zz_world") {
 			props = append(props, "C19")
